@@ -326,6 +326,8 @@ def okhslToOklab (c : V3 α) : V3 α :=
     let ab := hueIntoCartesian h
     let a_ := ab.1; let b_ := ab.2
     let oklab_lightness := toeInv l
+    -- `toe_inv` rounds to exactly 1 for the lightness next below 1; `ChromaValues::from_normalized` divides by `1 − L` (guard added by the C15 repair)
+    if eqv oklab_lightness 1.0 then ⟨1.0, 0.0, 0.0⟩ else
     let cs := fromNormalized oklab_lightness a_ b_
     let chroma := okhslChroma cs s
     ⟨oklab_lightness, chroma * a_, chroma * b_⟩
